@@ -30,7 +30,10 @@ use core::cell::Cell;
 use core::ptr;
 use core::slice::Iter;
 use core::sync::atomic::Ordering::*;
+#[cfg(not(arc_swap_verif))]
 use core::sync::atomic::{AtomicPtr, AtomicUsize};
+#[cfg(arc_swap_verif)]
+use crate::verif::{AtomicPtr, AtomicUsize};
 
 #[cfg(feature = "experimental-thread-local")]
 use core::cell::OnceCell;
@@ -349,6 +352,46 @@ impl LocalNode {
         let node = &self.node.get().expect("LocalNode::with ensures it is set");
         debug_assert_eq!(node.in_use.load(Relaxed), NODE_USED);
         node.helping.help(&who.helping, storage_addr, replacement)
+    }
+}
+
+#[cfg(arc_swap_verif)]
+impl Node {
+    pub(crate) fn verif_head_addr() -> usize {
+        &LIST_HEAD as *const _ as usize
+    }
+
+    /// Addresses of the atomics of all the nodes, the oldest node first.
+    pub(crate) fn verif_nodes() -> alloc::vec::Vec<crate::verif::NodeAddrs> {
+        let mut result = alloc::vec::Vec::new();
+        let mut current = unsafe { crate::verif::peek(Self::verif_head_addr()) as *const Node };
+        while let Some(node) = unsafe { current.as_ref() } {
+            let helping = node.helping.verif_addrs();
+            result.push(crate::verif::NodeAddrs {
+                node: node as *const _ as usize,
+                fast: node
+                    .fast_slots()
+                    .map(|d| &d.0 as *const _ as usize)
+                    .collect(),
+                control: helping[0],
+                slot: helping[1],
+                active_addr: helping[2],
+                handover: helping[3],
+                space_offer: helping[4],
+                in_use: &node.in_use as *const _ as usize,
+                active_writers: &node.active_writers as *const _ as usize,
+            });
+            current = node.next;
+        }
+        result.reverse();
+        result
+    }
+}
+
+#[cfg(arc_swap_verif)]
+impl LocalNode {
+    pub(crate) fn verif_set_generation(gen: usize) {
+        LocalNode::with(|local| local.helping.verif_set_generation(gen));
     }
 }
 
